@@ -171,7 +171,48 @@ def run(tier="quick", seed=0):
     finally:
         import shutil
         shutil.rmtree(tmpd, ignore_errors=True)
+    # (f) one tree used over time: cores added in batches, the pairs read after every batch (and twice in a row) must select
+    #     exactly the cores added so far - whatever was read before
+    from rig.machine_control.regions import RegionCoreTree
+    for i in range(120 if tier == "quick" else 1500):
+        tree = RegionCoreTree()
+        added = set()
+        bx, by = rng.choice([0, 4, 60, 192]), rng.choice([0, 64, 100, 252])
+        history = []
+        for batch in range(rng.randint(2, 4)):
+            new = set()
+            kind = rng.random()
+            if kind < .35 and added:          # next to / under what is already there
+                ax, ay, ap = rng.choice(sorted(added))
+                for _ in range(rng.randint(1, 4)):
+                    new.add((min(255, ax + rng.randint(0, 5)), min(255, ay + rng.randint(0, 3)), rng.choice((ap, ap, rng.randrange(18)))))
+            elif kind < .55:                  # completes / nearly completes a 4x4 block for one core
+                p_ = rng.randrange(18)
+                ox, oy = (bx // 4) * 4, (by // 4) * 4
+                cells = [(ox + dx, oy + dy, p_) for dx in range(4) for dy in range(4)]
+                new.update(cells if rng.random() < .6 else cells[:-1])
+            else:
+                for _ in range(rng.randint(1, 5)):
+                    new.add((min(255, bx + rng.choice((0, 1, 4, 5, 17, 64))), min(255, by + rng.choice((0, 1, 2, 64))), rng.randrange(18)))
+            for (x, y, p_) in sorted(new):
+                tree.add_core(x, y, p_)
+            added |= new
+            history.append(sorted(new))
+            for again in range(2):
+                ev += 1
+                pairs = list(tree.get_regions_and_coremasks())
+                chips = set((x, y) for x, y, _ in added)
+                got = decode(pairs, chips | around(chips))
+                why = None
+                if set(got) != added:
+                    why = "after batch %d (read %d): missing %s extra %s" % (batch + 1, again + 1, sorted(added - set(got))[:3], sorted(set(got) - added)[:3])
+                elif any(v != 1 for v in got.values()):
+                    why = "after batch %d: selected twice: %s" % (batch + 1, [k for k, v in got.items() if v != 1][:3])
+                if why and len(viol) < 6:
+                    viol.append({"id": "tree_%d" % ev, "clause": "region_selection", "why": "one RegionCoreTree read after every batch of add_core calls: " + why,
+                                 "inputs": {"batches_of_cores_added": history}})
+            distinct += 1
     return {"name": "c12_regions", "evaluations": ev, "distinct_nontrivial": distinct,
-            "rule": "compress_flood_fill_regions decoded by an independent reading of the region word: all subsets of 2x2 chips x cores {1,17} at six positions (incl. level boundaries); full, one-short, full+sparse-second-core and full+outside blocks of 1, 4, 16, 64 chips square for three core pairs at two positions; seeded mixes of neighbouring chips with different core sets; checks nothing missing, nothing extra (neighbouring chips probed), nothing twice, strictly increasing (region<<32|mask), well formed; get_region_for_chip for every chip x level against the documented word; the core-select packets the real flood_fill_aplx sends (recording transport) for two/three-chip targets with cores 16/17 and seeded mixes: the pairs produced, in increasing order",
+            "rule": "compress_flood_fill_regions decoded by an independent reading of the region word: all subsets of 2x2 chips x cores {1,17} at six positions (incl. level boundaries); full, one-short, full+sparse-second-core and full+outside blocks of 1, 4, 16, 64 chips square for three core pairs at two positions; seeded mixes of neighbouring chips with different core sets; checks nothing missing, nothing extra (neighbouring chips probed), nothing twice, strictly increasing (region<<32|mask), well formed; get_region_for_chip for every chip x level against the documented word; the core-select packets the real flood_fill_aplx sends (recording transport) for two/three-chip targets with cores 16/17 and seeded mixes (all fills on ONE controller): the pairs produced, in increasing order; one RegionCoreTree used over time (2-4 batches of add_core, the pairs read twice after every batch): exactly the cores added so far",
             "bound": "structured families listed in the rule; %d seeded mixes" % (300 if tier == "quick" else 3000), "exhaustive": False,
             "label": "bounded", "samples": samples, "violations": viol, "seconds": round(time.time() - t0, 2)}
